@@ -507,8 +507,22 @@ def produce(case):
                     extra["again"] = e
             return body, ctype, extra
         rec = _Recorder(headers=dict(POOL_HEADERS))
-        hdrs = HDR_KINDS[case.get("hdrs", "none")]
-        hdrs = dict(hdrs) if hdrs is not None else None
+        hk = case.get("hdrs", "none")
+        if hk == "xhd":
+            # the caller's own HTTPHeaderDict, used for TWO requests with different boundaries: what is judged is
+            # the second one (a Content-Type written into the caller's object by the first call would name the
+            # first boundary)
+            from urllib3._collections import HTTPHeaderDict
+            hdrs = HTTPHeaderDict({"X-A": "1"})
+            first = "first-" + (explicit or "generated")
+            if route == "reb":
+                rec.request_encode_body("POST", URL, fields=fields, headers=hdrs, multipart_boundary=first)
+            else:
+                rec.request("post", URL, fields=fields, headers=hdrs, multipart_boundary=first)
+            del rec.calls[:]
+        else:
+            hdrs = HDR_KINDS[hk]
+            hdrs = dict(hdrs) if hdrs is not None else None
         if route == "reb":
             rec.request_encode_body("POST", URL, fields=fields, headers=hdrs, multipart_boundary=explicit)
         else:
@@ -544,7 +558,7 @@ def evaluate(case):
         hd = calls[0]["headers"]
         cts = [v for k, v in (hd.items() if hd is not None else []) if k.lower() == "content-type"]
         kind = case.get("hdrs", "none")
-        keep = POOL_HEADERS if kind == "none" else {"X-A": "1"}
+        keep = POOL_HEADERS if kind == "none" else {"X-A": "1"}  # ("x", "uct" and "xhd" all carry X-A)
         kept = {k: v for k, v in (hd.items() if hd is not None else []) if k.lower() != "content-type"}
         if kept != keep:
             pre.append(("reb-passthrough", dict(base, hdrs=kind), kept, keep))
@@ -816,7 +830,8 @@ def fam_f5(tuples, acc, local):
             continue  # routes are exercised on the coarse and medium grades
         if dict_ok(specs):
             run_case(_one(specs, container="dict", boundary=None, route="request", hdrs="none"), acc, cnt)
-        for route, b, hk in (("reb", EXPLICIT, "none"), ("reb", None, "x"), ("reb", EXPLICIT, "uct"), ("request", EXPLICIT, "uct")):
+        for route, b, hk in (("reb", EXPLICIT, "none"), ("reb", None, "x"), ("reb", EXPLICIT, "uct"), ("request", EXPLICIT, "uct"),
+                             ("reb", EXPLICIT, "xhd"), ("request", None, "xhd")):
             run_case(_one(specs, container="list", boundary=b, route=route, hdrs=hk), acc, cnt)
 
 
